@@ -2,6 +2,7 @@
 from .. import anchors as A
 from .. import shared as S
 from .. import poolrules as R
+from .. import positives as P
 
 PROP = "C11"
 EXPLANATION = (
@@ -29,3 +30,5 @@ def run(ctx, report):
         report.guard("C11.SHARE", R.pool_share, ctx, report, "C11.SHARE", facts, config)
         report.guard("C11.LOCK", R.lock, ctx, report, "C11.LOCK", facts, config)
         report.guard("C11.INVENTORY", S.pool_inventory, ctx, report, "C11.INVENTORY", facts, config)
+    P.check(ctx, report, "C11.POOL", ["num_threads"])
+    P.check(ctx, report, "C11.LOCK", ["write_lock"])
